@@ -327,6 +327,9 @@ BASE_SOURCES = [
     ("def", "def f(a, b, c):\n    return a\n", [0]),
     ("defstar", "def f(a, *b, c, **d):\n    return a\n", [0]),
     ("defposonly", "def f(a, /, b, *, c):\n    return a\n" if PY >= (3, 8) else "def f(a, b, *, c):\n    return a\n", [0]),
+    ("defkwonly", "def f(**kw):\n    return kw\n", [0]),
+    ("defstaronly", "def f(*va):\n    return va\n", [0]),
+    ("defnoargs", "def f():\n    return 1\n", [0]),
     ("closure", "def o(a):\n    def f(b):\n        return a + b\n    return f\n", [0]),
     ("inner", "def o(a):\n    def f(b):\n        return a + b\n    return f\n", [0, 0]),
     ("gen", "def f(a):\n    yield a\n", [0]),
